@@ -258,6 +258,20 @@ def check(ctx):
                f"{smc.qual}.get_next_state", smc.where(gn), "the state object returned is the table entry of the requested state",
                f"get_next_state returns {rets}", key="returns_requested")
 
+    # ---- 14 no input makes the machine raise (= C03 clause 4 on the state-machine thread root) -------------------------------
+    ctx.clause = "14-no-input-raises"
+    from ..raises import Raises
+    from .c03 import input_driven, _trace
+    R = Raises(repo)
+    q = f"{psm.SM}.PeerStateMachine.__start"
+    fi = ctx.need(repo.funcs.get(q), q)
+    esc = input_driven(R, R.escapes(fi))
+    if not esc:
+        ctx.hold("R-THREAD", q, fi.where(), "no input-driven exception reaches the top of the tick thread", key="thread:none")
+    for e in sorted(esc):
+        ctx.violate("R-THREAD", q, fi.where(), f"input-driven {e} reaches the top of the state-machine thread uncaught "
+                    f"({_trace(R, q, e)}): a message from the peer stops the machine from ticking", key=f"thread:{e}")
+
     # answers sent within the handler that built them (shared with C07 clause 4)
     ctx.clause = "5b-answers-sent-in-handler"
     for c, (ci, ps) in table.items():
